@@ -14,7 +14,12 @@ func generate(tier string, r *rng.R) []fw.Case {
 	}
 	var cs []fw.Case
 	for i := 0; i < n; i++ {
-		cs = append(cs, envh.GenCase(r.Fork(), profile))
+		if i%5 == 4 {
+			// teardowns that end a run (or not): every state, leave_<state> / DESTROY hooks of every kind and outcome
+			cs = append(cs, envh.GenTeardownCase(r.Fork()))
+		} else {
+			cs = append(cs, envh.GenCase(r.Fork(), profile))
+		}
 	}
 	return cs
 }
